@@ -18,7 +18,7 @@ import (
 
 // ---- C07: mkdir never escapes the target directory and validates names first
 
-var c07Names = []string{"x", "..", ".", "a/b", "/abs", "../x", "x/..", "../../y", "abs", "abs/"} // "abs" is the valid twin of "/abs" and "abs/"
+var c07Names = []string{"x", "..", ".", "a/b", "/abs", "../x", "x/..", "../../y", "abs", "abs/", "/", "//"} // "abs" is the valid twin of "/abs" and "abs/"
 
 func validElement(n string) bool {
 	return n != "" && n != "." && n != ".." && !strings.Contains(n, "/")
@@ -30,7 +30,11 @@ type c07Replay struct {
 	Names []string `json:"names"`
 	Route string   `json:"route"` // md | root | md-dry-output | md-dry-mkdir | root-dry
 	Exts  []string `json:"exts"`
+	Extra string   `json:"extra_options,omitempty"`
 }
+
+// options that do not concern Mkdir: names are validated and nothing leaves the target whatever else is passed
+var c07Extras = []string{"json", "yaml", "toml", "noiter", "strict", "fmt", "nil,toml", "yaml,strict,noiter"}
 
 func c07Case(c *rep.Ctx, r c07Replay) {
 	f := enum.Build(r.Depth, r.Names)
@@ -42,6 +46,7 @@ func c07Case(c *rep.Ctx, r c07Replay) {
 	if len(r.Exts) > 0 {
 		opts = append(opts, gtree.WithFileExtensions(r.Exts))
 	}
+	opts = append(opts, extraOpts(r.Extra, "")...)
 	var err error
 	var buf bytes.Buffer
 	pan := sut.Guard(func() {
@@ -69,6 +74,9 @@ func c07Case(c *rep.Ctx, r c07Replay) {
 	c.Trans(len(r.Depth))
 	size := len(r.Depth)*100 + len(strings.Join(r.Names, ""))
 	desc := fmt.Sprintf("route=%s doc=%q exts=%v", r.Route, doc, r.Exts)
+	if r.Extra != "" {
+		desc += " extra options=" + r.Extra
+	}
 	if pan != "" {
 		c.Violation("C07|panic|"+r.Route, desc+": "+pan, size, r)
 		return
@@ -158,7 +166,12 @@ func init() {
 							if n == 4 && ex != nil {
 								continue
 							}
-							c07Case(c, c07Replay{"c07", d, names, rt, ex})
+							c07Case(c, c07Replay{"c07", d, names, rt, ex, ""})
+						}
+						if n <= 2 && rt != "md-dry-output" {
+							for _, ex := range c07Extras {
+								c07Case(c, c07Replay{"c07", d, names, rt, []string{"x"}, ex})
+							}
 						}
 					}
 				})
@@ -189,7 +202,7 @@ func init() {
 					c.StateN(1)
 					c.Inc("wide_cases")
 					for _, rt := range []string{"md", "root", "md-dry-output"} {
-						c07Case(c, c07Replay{"c07", d, names, rt, nil})
+						c07Case(c, c07Replay{"c07", d, names, rt, nil, ""})
 					}
 				}
 			}
